@@ -1,6 +1,10 @@
 package odt
 
-import "encoding/xml"
+import (
+	"encoding/xml"
+	"strconv"
+	"strings"
+)
 
 // ODF XML namespaces
 const (
@@ -47,6 +51,10 @@ type paragraphXML struct {
 	StyleName string    `xml:"style-name,attr"`
 	Spans     []spanXML `xml:"span"`
 	Text      string    `xml:",chardata"`
+
+	// content is the complete text in document order (set by UnmarshalXML).
+	content string
+	decoded bool
 }
 
 // headingXML represents a heading element (<text:h>).
@@ -56,6 +64,87 @@ type headingXML struct {
 	OutlineLevel string    `xml:"outline-level,attr"`
 	Spans        []spanXML `xml:"span"`
 	Text         string    `xml:",chardata"`
+
+	// content is the complete text in document order (set by UnmarshalXML).
+	content string
+	decoded bool
+}
+
+// UnmarshalXML reads a paragraph keeping the order of its mixed content.
+func (p *paragraphXML) UnmarshalXML(d *xml.Decoder, start xml.StartElement) (err error) {
+	p.XMLName, p.StyleName, p.decoded = start.Name, attrValue(start, "style-name"), true
+	p.Text, p.content, p.Spans, err = decodeInlineContent(d)
+	return err
+}
+
+// UnmarshalXML reads a heading keeping the order of its mixed content.
+func (h *headingXML) UnmarshalXML(d *xml.Decoder, start xml.StartElement) (err error) {
+	h.XMLName, h.StyleName, h.decoded = start.Name, attrValue(start, "style-name"), true
+	h.OutlineLevel = attrValue(start, "outline-level")
+	h.Text, h.content, h.Spans, err = decodeInlineContent(d)
+	return err
+}
+
+// attrValue returns the value of the attribute with the given local name.
+func attrValue(start xml.StartElement, local string) string {
+	for _, a := range start.Attr {
+		if a.Name.Local == local {
+			return a.Value
+		}
+	}
+	return ""
+}
+
+// decodeInlineContent reads the mixed content of a paragraph-like element
+// (text:p, text:h, text:span, text:a) up to its end tag. It returns the
+// character data that is a direct child (direct), the complete text in
+// document order (full) - character data, the text of text:span and text:a
+// children at their position, text:s as blanks, text:tab as "\t" and
+// text:line-break as "\n" - and the text:span children. Other inline
+// elements (notes, fields, bookmarks …) are skipped as before.
+func decodeInlineContent(d *xml.Decoder) (direct, full string, spans []spanXML, err error) {
+	var db, fb strings.Builder
+	for {
+		tok, err := d.Token()
+		if err != nil {
+			return "", "", nil, err
+		}
+		switch t := tok.(type) {
+		case xml.CharData:
+			db.Write(t)
+			fb.Write(t)
+		case xml.StartElement:
+			switch t.Name.Local {
+			case "span", "a":
+				_, inner, innerSpans, err := decodeInlineContent(d)
+				if err != nil {
+					return "", "", nil, err
+				}
+				fb.WriteString(inner)
+				if t.Name.Local == "span" {
+					spans = append(spans, spanXML{XMLName: t.Name, StyleName: attrValue(t, "style-name"), Text: inner})
+				} else {
+					spans = append(spans, innerSpans...)
+				}
+				continue
+			case "s":
+				n := 1
+				if c, err := strconv.Atoi(attrValue(t, "c")); err == nil && c > 0 {
+					n = c
+				}
+				fb.WriteString(strings.Repeat(" ", n))
+			case "tab":
+				fb.WriteString("\t")
+			case "line-break":
+				fb.WriteString("\n")
+			}
+			if err := d.Skip(); err != nil {
+				return "", "", nil, err
+			}
+		case xml.EndElement:
+			return db.String(), fb.String(), spans, nil
+		}
+	}
 }
 
 // spanXML represents a text span with formatting (<text:span>).
